@@ -200,6 +200,11 @@ type Store struct {
 	HonorCtx bool
 	// Trusted: link systems made for this store have TrustedStorage set
 	Trusted bool
+	// Recycle: blocks are handed out as a *bytes.Buffer over a receive buffer that is overwritten when the next load
+	// arrives (or RecycleNow is called). With TrustedStorage the dag-pb decoder works on those bytes in place, so whatever
+	// a node keeps of its block has to be a copy.
+	Recycle bool
+	lent    [][]byte
 
 	// Park: the FIRST read open of a block listed here waits until its channel is closed before it is served (a request
 	// that takes long: the block comes from far away). Waiting happens outside the store's lock.
@@ -324,7 +329,29 @@ func (s *Store) openRead(lc linking.LinkContext, l datamodel.Link) (io.Reader, e
 	if !ok {
 		return nil, notFoundErr{c}
 	}
+	if s.Recycle {
+		s.recycleLocked()
+		cp := append([]byte(nil), b...)
+		s.lent = append(s.lent, cp)
+		return bytes.NewBuffer(cp), nil
+	}
 	return bytes.NewReader(b), nil
+}
+
+func (s *Store) recycleLocked() {
+	for _, old := range s.lent {
+		for i := range old {
+			old[i] = 0xA5
+		}
+	}
+	s.lent = s.lent[:0]
+}
+
+// RecycleNow overwrites every receive buffer handed out so far (see Recycle).
+func (s *Store) RecycleNow() {
+	s.mu.Lock()
+	defer s.mu.Unlock()
+	s.recycleLocked()
 }
 
 type faultWriter struct {
